@@ -36,7 +36,8 @@ def cases(draw, tier):
                            max_m=6, min_n=3))
     return {"config": name, "env": "absent", "scheme": scheme, "dataset": ds,
             "at_most_one": draw(st.sampled_from([False, False, True])), "rng": draw(st.integers(0, 9999)),
-            "via_mutation": draw(mutate.via_strategy(ds["rankings"], p=5))}
+            "via_mutation": draw(mutate.via_strategy(ds["rankings"], p=5)),
+            "prelude": draw(st.sampled_from([None, None, "reordered", "reordered", "renamed", "other"]))}
 
 
 def best_move(inst, model):
